@@ -529,7 +529,13 @@ func (fe *FE) applyContract(st *State, ins ssa.Instruction, ci *callInfo, res ss
 	sig := ci.sig
 	if sig != nil {
 		for i := 0; i < sig.Results().Len(); i++ {
-			results = append(results, fe.freshVal(st, "ret", sig.Results().At(i).Type()))
+			rt := sig.Results().At(i).Type()
+			if con.Extern && fe.S.scalarSort(rt) == "" && !isSliceType(rt) {
+				// a struct / array result of a dependency (e.g. time.Time): an opaque value, only usable as an argument
+				results = append(results, Val{Kind: VNone, GoT: rt})
+				continue
+			}
+			results = append(results, fe.freshVal(st, "ret", rt))
 		}
 	}
 	if con.Pure && len(results) == 1 && results[0].Kind == VScalar && con.Extern && len(con.Ensures) == 0 {
